@@ -9,6 +9,7 @@ CONSTANTS
   AsFound_DecorativeExcluded = FALSE
   AsFound_TimeAxisFrozen = FALSE
   AsFound_AcceptanceUsesStepTolerance = FALSE
+  AsFound_ShortHorizonNotCompared = FALSE
 INVARIANT TypeOK
 INVARIANT C15_AcceptedIsSteady
 INVARIANT C15_JudgesExactlyNonExcluded
